@@ -499,6 +499,10 @@ class Reason:
                 return True
             if atom[0] == "lt" and pol is True and atom[1] == t and isinstance(atom[2], tuple) and atom[2][0] in ("strlen", "len"):
                 return True
+            # t < len - k
+            if atom[0] == "lt" and pol is True and atom[1] == t and isinstance(atom[2], tuple) and len(atom[2]) == 4 and atom[2][0] == "bin" \
+                    and atom[2][1] == "Sub" and isinstance(atom[2][2], tuple) and atom[2][2][0] in ("strlen", "len") and is_int(atom[2][3]):
+                return True
         if isinstance(t, tuple) and t[0] == "bin" and t[1] == "Add":
             # a sum that is itself a boundary of some string
             for atom, pol in self.f.order:
